@@ -372,7 +372,7 @@ def _decode_lines(fid, l_0, platform, only_first, open_is_dummy=False):
     designator = "1 " + SATELLITES.get(platform, "")
     tle = ""
     l_0 = _decode(l_0)
-    if l_0.strip() == platform:
+    if platform and l_0.strip() == platform:
         l_1 = _decode(next(fid))
         l_2 = _decode(next(fid))
         tle = _merge_tle_from_two_lines(l_1, l_2)
